@@ -211,4 +211,25 @@ theorem invI_any {c : Cfg} {s s' : State} (ho : InvO s) (hq : InvQ s) (hi : InvI
       · rw [hnc] at ha; cases ha
     · intro h; have := h t; simp [startWorker, Pc.consumer] at this
 
+/-- all items for which an index was taken so far, in index order -/
+def allItems (s : State) : List Item := (List.range s.tail).filterMap s.tick
+
+theorem pairwise_items {s : State} (hi : InvI s) (n : Nat) :
+    ((List.range n).filterMap s.tick).Pairwise (fun a b => a.owner = b.owner → a.seq < b.seq) := by
+  induction n with
+  | zero => simp
+  | succ n ih =>
+    rw [List.range_succ, List.filterMap_append, List.pairwise_append]
+    refine ⟨ih, ?_, ?_⟩
+    · cases h : s.tick n <;> simp [h]
+    · intro a ha b hb hab
+      rw [List.mem_filterMap] at ha hb
+      obtain ⟨i, hi', hia⟩ := ha
+      obtain ⟨j, hj, hjb⟩ := hb
+      rw [List.mem_range] at hi'
+      simp only [List.mem_singleton] at hj
+      subst hj
+      exact (hi.ord i j a b hia hjb hab).1 hi'
+
+
 end Babylon.ExecQ
